@@ -23,8 +23,7 @@ Qed.
 (* ------------------------------------------------------------------------------------------------ *)
 (* the automaton: raw steps, completion, folding *)
 
-Definition flush (r : rd) : list frame * rd :=
-  if complete r then ([(command r, packet r)], rd_init) else ([], r).
+Notation flush := flush_pending.
 
 (* command == 0 only while nothing else has been read *)
 Definition rd_ok (r : rd) : Prop := command r = 0 -> have_remaining r = false.
@@ -133,8 +132,11 @@ Section GenericProofs.
   Variable stream : T -> list Z.       (* ghost: bytes the transport will still deliver, in order *)
   Variable size : T -> nat.            (* ghost: termination measure *)
   Variable live : T -> bool.           (* ghost: the transport never fails *)
+  Variable inv : T -> Prop.            (* ghost: consistency of the transport state (True for the raw socket) *)
 
-  Definition recv_spec : Prop := forall n t, 1 <= n ->
+  Definition recv_inv : Prop := forall n t, 1 <= n -> inv t -> inv (snd (recv n t)).
+
+  Definition recv_spec : Prop := forall n t, 1 <= n -> inv t ->
     match recv n t with
     | (RData d, t') =>
         stream t = d ++ stream t' /\ (size t' < size t)%nat /\
@@ -145,6 +147,7 @@ Section GenericProofs.
     end.
 
   Hypothesis Hrecv : recv_spec.
+  Hypothesis Hinv : recv_inv.
 
   Local Notation packet_read := (packet_read recv).
   Local Notation run := (run recv idle).
@@ -156,7 +159,7 @@ Section GenericProofs.
     (rc = PrAgain /\ ((size t' < size t0)%nat \/ idle t' = true) /\ (live t0 = true -> live t' = true)) \/
     (rc = PrConnLost /\ live t0 = false).
 
-  Lemma recv1_cases t :
+  Lemma recv1_cases t : inv t ->
     match recv 1 t with
     | (RData [b], t') => stream t = b :: stream t' /\ (size t' < size t)%nat /\ (live t = true -> live t' = true)
     | (RData [], t') => stream t = stream t' /\ live t = false
@@ -165,7 +168,7 @@ Section GenericProofs.
     | (_, t') => stream t' = stream t /\ live t = false
     end.
   Proof.
-    pose proof (Hrecv 1 t ltac:(lia)) as H. destruct (recv 1 t) as [[d| | |] t']; try assumption.
+    intro Hi. pose proof (Hrecv 1 t ltac:(lia) Hi) as H. destruct (recv 1 t) as [[d| | |] t']; try assumption.
     destruct H as (Hs & Hz & Hl & Hn). destruct d as [|b [|b2 d]].
     - split; [assumption|]. destruct (live t); [|reflexivity]. destruct (Hl eq_refl) as [X _]. congruence.
     - repeat split; try assumption. intro L. apply Hl; assumption.
@@ -174,7 +177,7 @@ Section GenericProofs.
 
   (* ---- phase 1 ---- *)
   Lemma phase1_spec r t :
-    rd_ok r -> complete r = false ->
+    inv t -> rd_ok r -> complete r = false ->
     match phase1 recv r t with
     | Ret rc r' t' =>
         (r' = r /\ stream t' = stream t /\ early t rc t') \/
@@ -186,8 +189,8 @@ Section GenericProofs.
                   (c = [] -> t' = t)
     end.
   Proof.
-    intros Hok Hc. unfold phase1. destruct (command r =? 0) eqn:E0.
-    - apply Z.eqb_eq in E0. pose proof (recv1_cases t) as H.
+    intros Hi Hok Hc. unfold phase1. destruct (command r =? 0) eqn:E0.
+    - apply Z.eqb_eq in E0. pose proof (recv1_cases t Hi) as H.
       destruct (recv 1 t) as [[d| | |] t'].
       + destruct d as [|b [|b2 d]].
         * destruct H. left. repeat split; auto. right. auto.
@@ -206,7 +209,7 @@ Section GenericProofs.
 
   (* ---- phase 2 ---- *)
   Lemma len_loop_spec fuel : forall r t,
-    command r <> 0 -> have_remaining r = false ->
+    inv t -> command r <> 0 -> have_remaining r = false ->
     match len_loop recv fuel r t with
     | Ret rc r' t' =>
         exists c, stream t = c ++ stream t' /\
@@ -219,9 +222,9 @@ Section GenericProofs.
                   command r' = command r /\ (size t' < size t)%nat /\ (live t = true -> live t' = true)
     end.
   Proof.
-    induction fuel as [|f IH]; intros r t Hcmd Hhr.
+    induction fuel as [|f IH]; intros r t Hi Hcmd Hhr.
     - cbn [len_loop]. exists []. split; [reflexivity|]. right; right. auto.
-    - cbn [len_loop]. pose proof (recv1_cases t) as H.
+    - cbn [len_loop]. pose proof (recv1_cases t Hi) as H. pose proof (Hinv 1 t ltac:(lia) Hi) as Hi'.
       assert (Hc : complete r = false) by (unfold complete; rewrite Hhr; reflexivity).
       destruct (recv 1 t) as [[d| | |] t'].
       + destruct d as [|b [|b2 d]]; [| |contradiction].
@@ -240,7 +243,7 @@ Section GenericProofs.
           -- destruct (Z.land b 128 =? 0) eqn:E128.
              ++ exists [b]. repeat split; auto. cbn [raws]. rewrite Hc, Eraw. reflexivity.
              ++ set (r2 := add_length (push_count r b) b) in *.
-                specialize (IH r2 t' Hcmd Hhr).
+                specialize (IH r2 t' Hi' Hcmd Hhr).
                 destruct (len_loop recv f r2 t') as [rc r' t''|r' t''].
                 ** destruct IH as (c & Hs' & IH). exists (b :: c). split; [rewrite Hs, Hs'; reflexivity|].
                    destruct IH as [(He & Hr & Hh & Hk)|[(Hp & c0 & b0 & r0 & Hc0 & Hr0 & Hcc & Hraw)|(Hfu & Hlen)]].
@@ -292,7 +295,7 @@ Section GenericProofs.
   Qed.
 
   Lemma body_loop_spec count : forall r t,
-    command r <> 0 -> have_remaining r = true ->
+    inv t -> command r <> 0 -> have_remaining r = true ->
     match body_loop recv count r t with
     | Ret rc r' t' =>
         exists c, stream t = c ++ stream t' /\
@@ -304,14 +307,15 @@ Section GenericProofs.
                   (c = [] -> t' = t /\ r' = r) /\ (c <> [] -> (size t' < size t)%nat)
     end.
   Proof.
-    induction count as [|k IH]; intros r t Hcmd Hhr.
+    induction count as [|k IH]; intros r t Hi Hcmd Hhr.
     - cbn [body_loop]. destruct (0 <? to_process r) eqn:E0.
       + exists []. split; [reflexivity|]. right; auto.
       + exists []. repeat split; auto. unfold complete. rewrite Hhr, E0. reflexivity. congruence.
     - cbn [body_loop]. destruct (0 <? to_process r) eqn:E0.
       2:{ exists []. repeat split; auto. unfold complete. rewrite Hhr, E0. reflexivity. congruence. }
       apply Z.ltb_lt in E0.
-      pose proof (Hrecv (to_process r) t ltac:(lia)) as H.
+      pose proof (Hrecv (to_process r) t ltac:(lia) Hi) as H.
+      pose proof (Hinv (to_process r) t ltac:(lia) Hi) as Hi'.
       destruct (recv (to_process r) t) as [[d| | |] t'].
       + destruct H as (Hs & Hz & Hl & Hn).
         destruct d as [|b d].
@@ -322,7 +326,7 @@ Section GenericProofs.
           destruct k as [|k'].
           -- exists (b :: d). split; [assumption|]. left. repeat split; auto.
              left. repeat split; auto. intro L. apply Hl; assumption.
-          -- specialize (IH (add_data r (b :: d)) t' Hcmd Hhr).
+          -- specialize (IH (add_data r (b :: d)) t' Hi' Hcmd Hhr).
              destruct (body_loop recv (S k') (add_data r (b :: d)) t') as [rc r' t''|r' t''].
              ++ destruct IH as (c & Hs' & IH). exists ((b :: d) ++ c).
                 split; [rewrite Hs, Hs', app_assoc; reflexivity|].
@@ -345,6 +349,44 @@ Section GenericProofs.
       + destruct H as (Hs & Hz & Hl). exists []. split; [auto|]. left. repeat split; auto. left; auto.
       + destruct H. exists []. split; [auto|]. left. repeat split; auto. right; auto.
       + destruct H. exists []. split; [auto|]. left. repeat split; auto. right; auto.
+  Qed.
+
+  (* ---- the transport invariant is kept ---- *)
+  Definition step_inv (x : step T) : Prop := match x with Ret _ _ t' => inv t' | Cont _ t' => inv t' end.
+
+  Lemma phase1_inv r t : inv t -> step_inv (phase1 recv r t).
+  Proof.
+    intro Hi. unfold phase1. destruct (command r =? 0); [|exact Hi].
+    pose proof (Hinv 1 t ltac:(lia) Hi) as H. destruct (recv 1 t) as [[[|b d]| | |] t']; cbn [snd] in H; try exact H.
+    destruct (b =? 0); exact H.
+  Qed.
+
+  Lemma len_loop_inv fuel : forall r t, inv t -> step_inv (len_loop recv fuel r t).
+  Proof.
+    induction fuel as [|f IH]; intros r t Hi; [exact Hi|]. cbn [len_loop].
+    pose proof (Hinv 1 t ltac:(lia) Hi) as H. destruct (recv 1 t) as [[[|b d]| | |] t']; cbn [snd] in H; try exact H.
+    destruct (4 <? _); [exact H|]. destruct (Z.land b 128 =? 0); [exact H|]. apply IH; exact H.
+  Qed.
+
+  Lemma body_loop_inv count : forall r t, inv t -> step_inv (body_loop recv count r t).
+  Proof.
+    induction count as [|k IH]; intros r t Hi; cbn [body_loop]; destruct (0 <? to_process r) eqn:E; try exact Hi.
+    apply Z.ltb_lt in E.
+    pose proof (Hinv (to_process r) t ltac:(lia) Hi) as H.
+    destruct (recv (to_process r) t) as [[[|b d]| | |] t']; cbn [snd] in H; try exact H.
+    destruct k; [exact H|]. apply IH; exact H.
+  Qed.
+
+  Lemma packet_read_inv r t : inv t -> inv (snd (packet_read r t)).
+  Proof.
+    intro Hi. unfold Reader.packet_read.
+    pose proof (phase1_inv r t Hi) as H1. destruct (phase1 recv r t) as [rc r1 t1|r1 t1]; [exact H1|].
+    cbn [step_inv] in H1.
+    assert (H2 : step_inv (phase2 recv r1 t1)).
+    { unfold phase2. destruct (have_remaining r1); [exact H1|]. apply len_loop_inv; exact H1. }
+    destruct (phase2 recv r1 t1) as [rc r2 t2|r2 t2]; [exact H2|]. cbn [step_inv] in H2.
+    pose proof (body_loop_inv 100 r2 t2 H2) as H3.
+    destruct (body_loop recv 100 r2 t2) as [rc r3 t3|r3 t3]; exact H3.
   Qed.
 
   (* ---- one _packet_read() call ---- *)
@@ -397,11 +439,11 @@ Section GenericProofs.
   Qed.
 
   Lemma packet_read_spec r t :
-    rd_ok r ->
+    inv t -> rd_ok r ->
     let '(rc, r', t') := packet_read r t in
     exists c, stream t = c ++ stream t' /\ call_rel r c rc r' /\ call_progress r t rc t'.
   Proof.
-    intros Hok. unfold Reader.packet_read.
+    intros Hi Hok. unfold Reader.packet_read.
     destruct (complete r) eqn:Hc.
     - (* a complete packet is pending (the 100-reads early return happened on its last byte) *)
       assert (Hhr : have_remaining r = true /\ (0 <? to_process r) = false).
@@ -416,7 +458,8 @@ Section GenericProofs.
       + cbn [call_rel]. unfold flush. rewrite Hc. cbn [fst snd]. exists []. repeat split.
       + cbn [call_progress]. split; [auto|]. left; auto.
     - assert (Hfl : snd (flush r) = r) by (unfold flush; rewrite Hc; reflexivity).
-      pose proof (phase1_spec r t Hok Hc) as H1.
+      pose proof (phase1_spec r t Hi Hok Hc) as H1.
+      pose proof (phase1_inv r t Hi) as Hi1.
       destruct (phase1 recv r t) as [rc r1 t1|r1 t1].
       { destruct H1 as [(-> & Hs & He)|(-> & b & Hs & Hraw)].
         - exists []. split; [rewrite Hs; reflexivity|]. split.
@@ -426,6 +469,9 @@ Section GenericProofs.
           cbn [call_rel]. unfold flush. rewrite Hc. cbn [fst snd]. split; [|reflexivity].
           apply (raws_feed_err r [] r b r1); [reflexivity|assumption|assumption]. }
       destruct H1 as (c1 & Hs1 & Hr1 & Hcmd1 & Hhr1 & Htp1 & Hsz1 & Hlv1 & Hnil1).
+      cbn [step_inv] in Hi1.
+      assert (Hi2 : step_inv (phase2 recv r1 t1)).
+      { unfold phase2. destruct (have_remaining r1); [exact Hi1|]. apply len_loop_inv; exact Hi1. }
       (* phase 2 *)
       assert (H2 : match phase2 recv r1 t1 with
                    | Ret rc r2 t2 =>
@@ -441,7 +487,7 @@ Section GenericProofs.
                    end).
       { unfold phase2. destruct (have_remaining r1) eqn:Hh.
         - exists []. repeat split; auto. congruence.
-        - pose proof (len_loop_spec 5 r1 t1 Hcmd1 Hh) as H.
+        - pose proof (len_loop_spec 5 r1 t1 Hi1 Hcmd1 Hh) as H.
           destruct (len_loop recv 5 r1 t1) as [rc r2 t2|r2 t2].
           + destruct H as (c & Hs & [(He & Hr & _ & Hk)|[Hp|(_ & [Hl|Hl])]]).
             * exists c. split; [assumption|]. left; auto.
@@ -465,7 +511,8 @@ Section GenericProofs.
           rewrite raws_app, Hr1. assumption. }
       destruct H2 as (c2 & Hs2 & Hr2 & Hhr2 & Hk2 & Hsz2 & Hlv2 & Hnil2 & Hne2).
       assert (Hcmd2 : command r2 <> 0) by (rewrite Hk2; assumption).
-      pose proof (body_loop_spec 100 r2 t2 Hcmd2 Hhr2) as H3.
+      cbn [step_inv] in Hi2.
+      pose proof (body_loop_spec 100 r2 t2 Hi2 Hcmd2 Hhr2) as H3.
       destruct (body_loop recv 100 r2 t2) as [rc r3 t3|r3 t3].
       { destruct H3 as (c3 & Hs3 & [(He & Hr3 & _ & Hk3)|(_ & Hx)]); [|discriminate].
         exists (c1 ++ c2 ++ c3). split; [rewrite Hs1, Hs2, Hs3, !app_assoc; reflexivity|]. split.
@@ -504,17 +551,18 @@ Section GenericProofs.
     end.
 
   Lemma run_spec fuel : forall r t,
-    rd_ok r ->
+    inv t -> rd_ok r ->
     let '(fs, st, r', t') := run fuel r t in
     exists c, stream t = c ++ stream t' /\ run_rel r c fs st r' /\
       (st = StIdle -> idle t' = true) /\
       (st = StConnLost -> live t = false) /\
       (st = StFuel -> (fuel <= weight r t)%nat).
   Proof.
-    induction fuel as [|f IH]; intros r t Hok.
+    induction fuel as [|f IH]; intros r t Hinvt Hok.
     - cbn [Reader.run]. exists []. repeat split; try discriminate. intros _. lia.
-    - cbn [Reader.run]. pose proof (packet_read_spec r t Hok) as H.
-      destruct (packet_read r t) as [[rc r1] t1].
+    - cbn [Reader.run]. pose proof (packet_read_spec r t Hinvt Hok) as H.
+      pose proof (packet_read_inv r t Hinvt) as Hi1.
+      destruct (packet_read r t) as [[rc r1] t1]. cbn [snd] in Hi1.
       destruct H as (c1 & Hs1 & Hrel & Hprog).
       destruct rc as [| | |cmd body|]; cbn [call_rel call_progress] in Hrel, Hprog.
       + (* AGAIN *)
@@ -522,7 +570,7 @@ Section GenericProofs.
         destruct (idle t1) eqn:Hid.
         * exists c1. split; [assumption|]. split; [|repeat split; try discriminate; auto].
           cbn [run_rel]. exists F. split; [assumption|]. cbn [app]. assumption.
-        * specialize (IH r1 t1 Hok1).
+        * specialize (IH r1 t1 Hi1 Hok1).
           destruct (run f r1 t1) as [[[fs st] r2] t2].
           destruct IH as (c2 & Hs2 & Hrel2 & Hi & Hcl & Hfu).
           exists (c1 ++ c2). split; [rewrite Hs1, Hs2, app_assoc; reflexivity|].
@@ -547,7 +595,7 @@ Section GenericProofs.
         cbn [run_rel]. exists []. split; [assumption|]. rewrite HFl. reflexivity.
       + (* a frame *)
         destruct Hrel as (F & HF & HFl & ->). destruct Hprog as [Hlv Hsz].
-        specialize (IH rd_init t1 rd_ok_init).
+        specialize (IH rd_init t1 Hi1 rd_ok_init).
         destruct (run f rd_init t1) as [[[fs st] r2] t2].
         destruct IH as (c2 & Hs2 & Hrel2 & Hi & Hcl & Hfu).
         exists (c1 ++ c2). split; [rewrite Hs1, Hs2, app_assoc; reflexivity|].
@@ -567,6 +615,15 @@ Section GenericProofs.
         * intro E. specialize (Hfu E). unfold weight in *. cbn [complete rd_init have_remaining andb] in Hfu.
           destruct Hsz as [[Hc ->]|[Hc Hsz]]; rewrite Hc; lia.
       + contradiction.
+  Qed.
+
+  Lemma run_inv fuel : forall r t, inv t -> inv (snd (run fuel r t)).
+  Proof.
+    induction fuel as [|f IH]; intros r t Hi; [exact Hi|]. cbn [Reader.run].
+    pose proof (packet_read_inv r t Hi) as H. destruct (packet_read r t) as [[rc r1] t1]. cbn [snd] in H.
+    destruct rc; try exact H.
+    - destruct (idle t1); [exact H|]. apply IH; exact H.
+    - specialize (IH r1 t1 H). destruct (run f r1 t1) as [[[fs st] r2] t2]. exact IH.
   Qed.
 End GenericProofs.
 
@@ -594,9 +651,14 @@ Qed.
 Lemma take_length n l : 0 <= n -> Z.of_nat (length (take n l)) <= n.
 Proof. intros Hn. unfold take. pose proof (firstn_le_length (Z.to_nat n) l). lia. Qed.
 
-Lemma sock_recv_spec : recv_spec sock_recv sock_idle sock_stream sock_size sock_live.
+Definition sock_inv (s : sock) : Prop := True.
+
+Lemma sock_recv_inv : recv_inv sock_recv sock_inv.
+Proof. intros n t _ _. exact I. Qed.
+
+Lemma sock_recv_spec : recv_spec sock_recv sock_idle sock_stream sock_size sock_live sock_inv.
 Proof.
-  intros n [av sch] Hn. unfold sock_recv, sock_stream, sock_size, sock_live, sock_idle.
+  intros n [av sch] Hn _. unfold sock_recv, sock_stream, sock_size, sock_live, sock_idle.
   destruct sch as [|e sch'].
   - destruct av as [|a av'].
     + cbn. repeat split; auto.
@@ -641,8 +703,8 @@ Theorem read_refines_feed_gen : forall r bs sch,
     (st = StConnLost -> sock_live (bs, sch) = false).
 Proof.
   intros r bs sch Hok.
-  pose proof (run_spec sock_recv sock_idle sock_stream sock_size sock_live sock_recv_spec
-                (sock_fuel (bs, sch)) r (bs, sch) Hok) as H.
+  pose proof (run_spec sock_recv sock_idle sock_stream sock_size sock_live sock_inv sock_recv_spec sock_recv_inv
+                (sock_fuel (bs, sch)) r (bs, sch) I Hok) as H.
   unfold sock_run. destruct (run sock_recv sock_idle (sock_fuel (bs, sch)) r (bs, sch)) as [[[fs st] r'] s'].
   destruct H as (c & Hs & Hrel & Hi & Hcl & Hfu). split.
   - intro E. specialize (Hfu E). unfold weight, sock_fuel, sock_size in Hfu. cbn [fst snd] in Hfu.
